@@ -147,6 +147,23 @@ SIZEOF_CASES = [
     ('Sequence("a"/Byte, "b"/Padded(this.nokey, Byte))', {}, ['b']),
     ('Struct("a"/Aligned(4, Struct("z"/ZigZag)))', {}, ['a', 'z']),
     ('Struct("u"/Union(None, "v"/Byte))', {}, ['u']),
+    # the branch is known while sizing and the unsized member is BELOW it: the path goes down to that member
+    ('Struct("payload"/Switch(1, {1: Struct("name"/CString("ascii"))}))', {}, ['payload', 'name']),
+    ('Struct("p"/Switch(this._params.k, {1: Struct("n"/VarInt)}, default=Struct("d"/GreedyBytes)))', dict(k=1), ['p', 'n']),
+    ('Struct("p"/Switch(this._params.k, {1: Struct("n"/VarInt)}, default=Struct("d"/GreedyBytes)))', dict(k=5), ['p', 'd']),
+    ('Struct("p"/IfThenElse(this._params.f, Struct("n"/VarInt), Byte))', dict(f=True), ['p', 'n']),
+    ('Struct("p"/IfThenElse(this._params.f, Byte, Struct("e"/Struct("z"/ZigZag))))', dict(f=False), ['p', 'e', 'z']),
+    ('Struct("a"/Array(2, Switch(2, {2: Struct("q"/Prefixed(Byte, Struct("r"/GreedyBytes)))})))', {}, ['a', 'q', 'r']),
+    ('Struct("o"/Aligned(4, Switch(0, {}, default=Struct("i"/VarInt))))', {}, ['o', 'i']),
+    ('Struct("l"/Prefixed(VarInt, Byte, includelength=True))', {}, ['l']),
+]
+
+# operations that size a part of the construct WHILE parsing / building: the error keeps the operation and the member path
+MIXED_CASES = [
+    ('Struct("rec"/Struct("body"/Prefixed(VarInt, GreedyBytes, includelength=True)))', b'\x05abcd', dict(rec=dict(body=b'abc')), ['rec', 'body']),
+    ('Struct("a"/Array(1, Struct("p"/Prefixed(ZigZag, Bytes(1), includelength=True))))', b'\x04a', dict(a=[dict(p=b'a')]), ['a', 'p']),
+    ('Struct("h"/Hex(Struct("v"/VarInt)))', b'\x05', None, ['h']),
+    ('Struct("x"/Struct("l"/Lazy(Prefixed(VarInt, GreedyBytes, includelength=True))))', b'\x03ab', None, ['x', 'l']),
 ]
 
 
@@ -175,6 +192,12 @@ def run(tier, seed):
     for src, kw, names in SIZEOF_CASES:
         acc.check('sizeof_path', src, kw=kw, names=names)
         cases.append(dict(src=src, op='sizeof', kw=kw))
+    for src, data, obj, names in MIXED_CASES:
+        acc.check('parse_path', src, data=data, names=names)
+        cases.append(dict(src=src, op='parse', data=data))
+        if obj is not None:
+            acc.check('build_path', src, obj=obj, names=names)
+            cases.append(dict(src=src, op='build', obj=obj))
     # string members (codec failures must carry the path too)
     for src, data, names in [('Struct("s"/PaddedString(2, "ascii"))', b'\xff\xff', ['s']), ('Struct("h"/Struct("t"/CString("utf8")))', b'\xff\x00', ['h', 't']),
                              ('Struct("a"/Array(2, Struct("n"/PascalString(Byte, "utf_16_le"))))', b'\x01a\x00', ['a', 'n'])]:
